@@ -67,6 +67,9 @@ def _specs(tier, rng):
     for _ in range(nrand):
         ln = rng.randrange(0, 65)
         strs.append([rng.randrange(256) for _ in range(ln)])
+    for ln in (255, 256, 257, 258, 300, 511, 512, 1025):     # beyond one byte / the interned small integers / typical buffer sizes
+        strs.append([rng.randrange(256) for _ in range(ln)])
+        strs.append([rng.randrange(0x20, 0x81) for _ in range(ln)])
     for _ in range(nrand // 5):          # printable-heavy strings
         ln = rng.randrange(0, 65)
         strs.append([rng.randrange(0x20, 0x81) for _ in range(ln)])
